@@ -91,7 +91,11 @@ fn worker(args: &[String]) -> i32 {
             }
             if let Ok(v) = serde_json::from_str::<Value>(line) {
                 let sub = v["sub"].as_str().unwrap_or("").to_string();
-                replay.push((sub, v["case"].clone()));
+                let case = match v["case_text"].as_str() {
+                    Some(t) => serde_json::from_str::<Value>(t).unwrap_or(Value::Null),
+                    None => v["case"].clone(),
+                };
+                replay.push((sub, case));
             }
         }
         if replay.is_empty() {
@@ -135,7 +139,7 @@ fn profile_bins() -> BTreeMap<String, PathBuf> {
 
 struct Finding {
     sub: String,
-    case: Value,
+    case_text: String,
     msg: String,
     profile: String,
 }
@@ -272,12 +276,11 @@ fn run(prop_id: &str, tier: &str) -> i32 {
                 let cur = std::fs::read_to_string(&cur_file).ok().and_then(|t| serde_json::from_str::<Value>(t.trim()).ok());
                 if prop_id == "C01" {
                     if let Some(h) = hang {
-                        let case = serde_json::from_str::<Value>(h["case_text"].as_str().unwrap_or("null")).unwrap_or(Value::Null);
-                        findings.push(Finding { sub: h["sub"].as_str().unwrap_or("").into(), case, msg: h["msg"].as_str().unwrap_or("hang").into(), profile: profile.into() });
+                        findings.push(Finding { sub: h["sub"].as_str().unwrap_or("").into(), case_text: h["case_text"].as_str().unwrap_or("null").to_string(), msg: h["msg"].as_str().unwrap_or("hang").into(), profile: profile.into() });
                     } else if let Some(c) = cur {
                         findings.push(Finding {
                             sub: c["sub"].as_str().unwrap_or("").into(),
-                            case: c["case"].clone(),
+                            case_text: c["case_text"].as_str().unwrap_or("null").to_string(),
                             msg: format!("the worker process died while evaluating this case ({:?}): abort, stack overflow or fatal signal", s),
                             profile: profile.into(),
                         });
@@ -296,7 +299,7 @@ fn run(prop_id: &str, tier: &str) -> i32 {
                 inconclusive.push(format!("{}: {}", sub, v["msg"].as_str().unwrap_or("")));
                 continue;
             }
-            findings.push(Finding { sub: sub.clone(), case: v["case"].clone(), msg: v["msg"].as_str().unwrap_or("").to_string(), profile: v["profile"].as_str().unwrap_or("").to_string() });
+            findings.push(Finding { sub: sub.clone(), case_text: v["case_text"].as_str().unwrap_or("null").to_string(), msg: v["msg"].as_str().unwrap_or("").to_string(), profile: v["profile"].as_str().unwrap_or("").to_string() });
         }
     }
 
@@ -309,13 +312,16 @@ fn run(prop_id: &str, tier: &str) -> i32 {
         let _ = std::fs::create_dir_all(&replay_dir);
     }
     for f in &findings {
-        let key = format!("{}|{}", f.sub, f.case);
+        let key = format!("{}|{}", f.sub, f.case_text);
         if !seen.insert(key.clone()) {
             continue;
         }
         let h = runner::fnv(&key);
         let path = replay_dir.join(format!("{}-{:016x}.json", f.sub, h));
-        let rec = json!({"property": prop_id, "sub": f.sub, "case": f.case, "message": f.msg, "profile": f.profile, "seed": seed, "tier": tier});
+        let mut rec = json!({"property": prop_id, "sub": f.sub, "case_text": f.case_text, "message": f.msg, "profile": f.profile, "seed": seed, "tier": tier});
+        if let Some(c) = shallow_case(&f.case_text, 100) {
+            rec["case"] = c;
+        }
         let _ = std::fs::write(&path, serde_json::to_string_pretty(&rec).unwrap_or_default());
         if printed < 10 {
             println!("VIOLATION property={} replay={}", prop_id, path.display());
@@ -354,6 +360,27 @@ fn run(prop_id: &str, tier: &str) -> i32 {
     0
 }
 
+fn depth_of(v: &Value) -> usize {
+    match v {
+        Value::Array(a) => 1 + a.iter().map(depth_of).max().unwrap_or(0),
+        Value::Object(o) => 1 + o.values().map(depth_of).max().unwrap_or(0),
+        _ => 0,
+    }
+}
+
+/// the case as JSON when it is shallow enough to be embedded, else None (it stays available as text)
+fn shallow_case(text: &str, max_depth: usize) -> Option<Value> {
+    serde_json::from_str::<Value>(text).ok().filter(|v| depth_of(v) <= max_depth)
+}
+
+fn sample_json(sub: &str, smp: &Value) -> Value {
+    let text = smp["case_text"].as_str().unwrap_or("null");
+    match shallow_case(text, 40) {
+        Some(c) => json!({"sub": sub, "class": smp["class"], "case": c}),
+        None => json!({"sub": sub, "class": smp["class"], "case_text": text}),
+    }
+}
+
 fn write_evidence(root: &Path, prop: &runner::Property, tier: &str, seed: u64, merged: &Merged, wall: f64, violations: usize, profiles: &[String], inconclusive: &[String]) {
     let mut samples: Vec<Value> = vec![];
     let mut subs = serde_json::Map::new();
@@ -366,7 +393,7 @@ fn write_evidence(root: &Path, prop: &runner::Property, tier: &str, seed: u64, m
     for s in &prop.subs {
         let m = merged.subs.get(s.name).unwrap_or(&empty);
         for smp in m.samples.iter().take(4) {
-            samples.push(json!({"sub": s.name, "class": smp["class"], "case": smp["case"]}));
+            samples.push(sample_json(s.name, smp));
         }
         subs.insert(
             s.name.to_string(),
@@ -387,7 +414,7 @@ fn write_evidence(root: &Path, prop: &runner::Property, tier: &str, seed: u64, m
     for (name, m) in &merged.subs {
         if !prop.subs.iter().any(|s| s.name == name) {
             for smp in m.samples.iter().take(4) {
-                samples.push(json!({"sub": name, "class": smp["class"], "case": smp["case"]}));
+                samples.push(sample_json(name, smp));
             }
             subs.insert(name.clone(), json!({"cases": m.cases, "implementation_evaluations": m.evals, "nontrivial": m.nontrivial, "distinct_nontrivial": m.distinct.len(), "violations": m.violations.len(), "unspec_skips": m.unspec}));
             classes_all.insert(name.clone(), json!(m.classes));
@@ -442,7 +469,10 @@ fn replay(prop_id: &str, file: &str) -> i32 {
     };
     let out_dir = root.join("target").join("run").join(format!("{}-replay-{}", prop_id, std::process::id()));
     let _ = std::fs::create_dir_all(&out_dir);
-    let line = json!({"sub": v["sub"], "case": v["case"]}).to_string();
+    let line = match v["case_text"].as_str() {
+        Some(t) => json!({"sub": v["sub"], "case_text": t}).to_string(),
+        None => json!({"sub": v["sub"], "case_text": v["case"].to_string()}).to_string(),
+    };
     let rf = out_dir.join("replay.jsonl");
     let _ = std::fs::write(&rf, line);
     let mut worst = 0;
